@@ -10,8 +10,8 @@ from hypothesis import strategies as st
 
 # ----------------------------------------------------------------------------- kinds
 FAILURE_KINDS = ("fail", "assertion_sub")
-ERROR_KINDS = ("error", "error_key")
-SKIP_KINDS = ("skip", "skip_sub")
+ERROR_KINDS = ("error", "error_key", "error_falsy", "xf_error")
+SKIP_KINDS = ("skip", "skip_sub", "skip_empty", "xf_skip")
 XFAIL_KINDS = ("xfail", "xfail_sub")
 UX_KINDS = ("uxsuccess", "ux_sub")
 NONEXC_KINDS = ("kbi", "sysexit", "base")
@@ -56,6 +56,8 @@ class Gen:
         self.cells = 0
         self.cleanup_ids = []
         self.multi_ids = []
+        self.burst_done = False
+        self.hot = None          # the (object, attribute) most patch/read actions of this program use
 
     def nid(self):
         return next(self.ids)
@@ -130,14 +132,22 @@ class Gen:
                 self.cleanup_ids.append(act["i"])
                 out.append(act)
             elif c == "patch":
-                obj = self.draw(st.integers(0, 2))
-                out.append({"a": "patch", "i": self.nid(), "obj": obj,
-                            "attr": self.draw(st.sampled_from(["x", "nonev", "missing"] if obj < 2 else ["x", "nonev"])), "value": "v%d" % self.nid()})
+                obj, attr = self.target(True)
+                out.append({"a": "patch", "i": self.nid(), "obj": obj, "attr": attr, "value": "v%d" % self.nid()})
             elif c == "read":
-                out.append({"a": "read", "i": self.nid(), "obj": self.draw(st.integers(0, 2)),
-                            "attr": self.draw(st.sampled_from(["x", "nonev", "missing"]))})
+                obj, attr = self.target(False)
+                out.append({"a": "read", "i": self.nid(), "obj": obj, "attr": attr})
             elif c == "fixture":
                 out.append({"a": "fixture", "i": self.nid(), "spec": self.fixture(1)})
+            elif c in ("detail", "expect") and depth == 0 and not self.burst_done and self.draw(st.integers(0, 11)) == 0:
+                # a loop attaching the same names a dozen times and more (suffixes reach two digits)
+                self.burst_done = True
+                names = self.draw(st.lists(st.sampled_from(DETAIL_NAMES), min_size=1, max_size=2, unique=True))
+                for _ in range(self.draw(st.integers(11, 14))):
+                    if c == "detail":
+                        out.append({"a": "detail", "i": self.nid(), "name": names[0], "chunks": [b"a"], "cell": None})
+                    else:
+                        out.append({"a": "expect", "i": self.nid(), "ok": False, "dnames": names})
             elif c == "detail":
                 lazy = None
                 if self.draw(st.integers(0, 3)) == 0:
@@ -161,6 +171,17 @@ class Gen:
             elif c == "onexc":
                 out.append({"a": "onexc", "i": self.nid()})
         return out
+
+    def target(self, patching):
+        """(object index, attribute name); two out of three uses go to one 'hot' pair so that the same
+        attribute is patched more than once and read in between."""
+        if self.hot is None:
+            obj = self.draw(st.integers(0, 2))
+            self.hot = (obj, self.draw(st.sampled_from(["x", "nonev", "missing"] if obj < 2 else ["x", "nonev"])))
+        if self.draw(st.integers(0, 2)) > 0:
+            return self.hot
+        obj = self.draw(st.integers(0, 2))
+        return obj, self.draw(st.sampled_from(["x", "nonev", "missing"] if (obj < 2 or not patching) else ["x", "nonev"]))
 
     def fixture(self, nest):
         f = {"i": self.nid(), "setup_fail": self.draw(st.integers(0, 4)) == 0, "cleanup_fail": self.draw(st.integers(0, 4)) == 0,
@@ -213,6 +234,12 @@ def programs(draw, **opts):
             hs.append({"cls": cls, "to": draw(st.sampled_from(["addSkip", "addError", "addFailure", "addSuccess", "addExpectedFailure"])),
                        "pos": draw(st.integers(0, 5))})
         prog["handlers"] = hs
+        prog["handlers_when"] = draw(st.sampled_from(["init", "setUp"]))
+    elif opts.get("skip_handlers") and g.raises > 0 and draw(st.integers(0, 2)) == 0:
+        # a user handler for the skip class in a program that raises several things: it may re-map the
+        # skip, it must not let the skip hide a failure or an error raised by another stage
+        prog["handlers"] = [{"cls": "SkipTest", "to": draw(st.sampled_from(["addSkip", "addSuccess", "addExpectedFailure"])),
+                             "pos": draw(st.integers(0, 5))}]
         prog["handlers_when"] = draw(st.sampled_from(["init", "setUp"]))
     prog["cells"] = g.cells
     if opts.get("extras"):
@@ -461,8 +488,7 @@ class Model:
             table.insert(min(h["pos"], len(table)), (h["cls"], h["to"]))
         return table
 
-    @staticmethod
-    def isinstance_(kind, cls):
+    def isinstance_(self, kind, cls):
         k = klass(kind)
         if cls == "Exception":
             return k != "nonexc"
@@ -475,7 +501,7 @@ class Model:
         if cls == "AssertionError":
             return k == "failure" or kind == "customFail"
         if cls == "SkipTest":
-            return k == "skip"
+            return k == "skip" and not self.p.get("custom_skip")      # a project's own skip class is unrelated to SkipTest
         return False
 
     def single_outcome(self, kind):
@@ -498,7 +524,7 @@ class Model:
             return {self.single_outcome(R[0]["kind"])}, False
         if any(c in ("failure", "error") for c in classes):
             return {"addFailure", "addError", "addUnexpectedSuccess"}, False
-        return {OUTCOME_OF_CLASS[c] for c in classes}, False
+        return {self.single_outcome(r["kind"]) for r in R}, False
 
 
 # ----------------------------------------------------------------------------- builder
@@ -516,6 +542,13 @@ class CustomAssertion(AssertionError):
 
 class CustomBase(BaseException):
     pass
+
+
+class FalsyError(RuntimeError):
+    """An exception whose truth value is False (it has a length, and that is 0)."""
+
+    def __len__(self):
+        return 0
 
 
 MARK = re.compile(r"MARK-(-?\d+)-")
@@ -619,7 +652,11 @@ def build_case(prog, live, result_log=None, runner=None):
             return RuntimeError(msg)
         if kind == "error_key":
             return KeyError(msg)
-        if kind == "skip":
+        if kind in ("error_falsy", "xf_error"):
+            return FalsyError(msg) if kind == "error_falsy" else RuntimeError(msg)
+        if kind == "skip_empty":
+            return case.skipException("")
+        if kind in ("skip", "xf_skip"):
             return case.skipException(msg)
         if kind == "skip_sub":
             # a subclass of whatever this test case uses as its skip signal
@@ -652,6 +689,12 @@ def build_case(prog, live, result_log=None, runner=None):
             raise AssertionError("expectFailure did not raise")
         e = make_exc(case, kind, i)
         live.raised_objs.setdefault(i, []).append(e)
+        if kind in ("xf_error", "xf_skip"):
+            # the callable handed to expectFailure raises something that is not a failure
+            def predicate():
+                raise e
+            case.expectFailure("MARK-%d-" % i, predicate)
+            raise AssertionError("expectFailure returned")
         raise e
 
     def raise_multi(case, subs):
